@@ -28,7 +28,7 @@ DOC = {
 
 ALLOWED = re.compile(
     r"Vec::<T, A>::(len|retain|is_empty)$|Vec<T, A> as std::iter::IntoIterator>::into_iter$|Vec<T, A> as std::ops::Deref>::deref$|slice::<impl \[T\]>::(iter|len|is_empty|contains)$|"
-    r"Iterator>::(any|all)$|Iterator::(any|all|map|filter_map|filter|min|max|collect|count|copied|cloned)$|Option::<T>::expect$|"
+    r"Iterator>::(any|all)$|Iterator::(any|all|map|filter_map|filter|min|max|collect|count|copied|cloned)$|Option::<T>::(expect|is_some|is_none|is_some_and|is_none_or|map|map_or|unwrap_or|unwrap_or_default|and_then|copied|cloned|as_ref|zip|xor|or|and|filter)$|"
     r"str::traits::<impl std::cmp::Ord for str>::cmp$|cmp::Ord::cmp$|PartialEq>::(eq|ne)$|PartialEq::(eq|ne)$|PartialOrd::|IntoIterator>::into_iter$|IntoIterator::into_iter$")
 POSITIONAL = re.compile(r"::(first|last|pop|swap_remove|remove|get|get_mut|split_first|split_last|sort\w*|binary_search\w*|position|rposition|find|find_map|next|nth|max_by_key|min_by_key|max_by|min_by|last_mut|first_mut|truncate|drain|split_off|dedup\w*|reverse|rev|skip|take|step_by|peek|index|index_mut|insert|push)$")
 
@@ -101,9 +101,18 @@ def r2(run, db):
     cm = run.need(db.one(r"NodeServerState::commit_authenticated$"), "commit_authenticated")
     # losers are drawn from authenticated sessions only
     okl = False
-    for g in db.children(cm.id):
-        if any(x.matches(r"HashSet::<T, S, A>::contains$") for x in g.calls()) and any(x.matches(r"slice::<impl \[T\]>::contains$") for x in g.calls()):
-            okl = True
+    for g in db.family(cm.id):
+        hs_ = [x for x in g.calls() if x.matches(r"HashSet::<T, S, A>::contains$")]
+        sl_ = [x for x in g.calls() if x.matches(r"slice::<impl \[T\]>::contains$|Vec::<T, A>::contains$")]
+        if not (hs_ and sl_):
+            continue
+        if g.kind == "closure":
+            okl = True          # the filter predicate of the loser selection
+        else:
+            # written as a loop: a loser is recorded only on `authenticated.contains(id)` true and `elected.contains(id)` false
+            for p_ in [x for x in g.calls() if x.matches(r"Vec::<T, A>::push$")]:
+                if any(true_edge(g, h) and g.edge_dominates(true_edge(g, h), p_.site) for h in hs_) and any(false_edge(g, e_) and g.edge_dominates(false_edge(g, e_), p_.site) for e_ in sl_):
+                    okl = True
     run.check(okl, "commit|losers-authenticated", "losers are sessions in the authenticated set that were not elected", "loser filter changed", cm.where())
 
 
@@ -198,13 +207,35 @@ def r5(run, db):
             roots = f.origins(c.args[0], through=lambda cc: 0 if cc.matches(r"Deref>::deref$|Vec::<T, A>::as_slice$") else None)
             if roots and all(r["k"] == "call" and r["call"].matches(r"Iterator::collect$") for r in roots):
                 emp.append(c)
-    run.check(len(emp) == 1, "registration-emptiness-test", "check_session tests whether the caller has any registration", "check_session has %d emptiness tests of the matching-registration vector" % len(emp), f.where())
+    from .bits import zero_edges
+    thr_v = lambda cc: 0 if cc.matches(r"Deref>::deref$|Vec::<T, A>::as_slice$|Deref::deref$") else None
+    def is_reg_len(x):
+        # len of the matching-registration vector: `v.len()` or the length read by a slice pattern (`match v.as_slice() { [] => .. }`)
+        if x[0] == "call" and x[1].matches(r"::len$"):
+            roots = f.origins(x[1].args[0], through=thr_v)
+            return bool(roots) and all(r["k"] == "call" and r["call"].matches(r"Iterator::collect$") for r in roots)
+        if x[0] == "un" and x[1] == "PtrMetadata":
+            inner = x[2]
+            if inner[0] == "call":
+                roots = f.origins({"k": "copy", "p": [inner[1].dest[0], []]}, through=thr_v)
+                return bool(roots) and all(r["k"] == "call" and r["call"].matches(r"Iterator::collect$") for r in roots)
+            if inner[0] in ("v", "arg"):
+                roots = f.origins({"k": "copy", "p": [inner[1], []]}, through=thr_v)
+                return bool(roots) and all(r["k"] == "call" and r["call"].matches(r"Iterator::collect$") for r in roots)
+        return False
+    empty_edges = [true_edge(f, c) for c in emp if true_edge(f, c)] + zero_edges(f, is_reg_len)
+    run.check(len(empty_edges) >= 1, "registration-emptiness-test", "check_session tests whether the caller has any registration", "check_session has %d emptiness tests of the matching-registration vector" % len(empty_edges), f.where())
     cand = [c for c in f.calls() if c.callee and c.callee.endswith("::candidates_for_peer")]
     run.anchor("compatibility-path topology reads", len(cand), 1, f.where())
-    if emp:
-        te = true_edge(f, emp[0])
+    if empty_edges:
+        class _E:
+            pass
+        te = empty_edges
+        _dom = f.edge_dominates
+        # (any of the emptiness edges)
+        f_edge_dominates = lambda edges, site: any(_dom(e_, site) for e_ in edges)
         for c in cand:
-            run.check(te is not None and f.edge_dominates(te, c.site), "compat-only-for-unregistered@cand", "the authenticated topology is consulted only when the caller has no registration",
+            run.check(te is not None and f_edge_dominates(te, c.site), "compat-only-for-unregistered@cand", "the authenticated topology is consulted only when the caller has no registration",
                       "check_session answers a *registered* caller (ambiguous nonce) from the authenticated candidate set, which can contain the caller itself: an unauthenticated duplicate registration makes an authenticated connection stand down", c.where())
         n = 0
         for site, st in f.aggregates(adt="SessionCheckReply"):
@@ -212,7 +243,7 @@ def r5(run, db):
             if v == "NoOtherConnection":
                 continue
             n += 1
-            run.check(te is not None and f.edge_dominates(te, site), "compat-only-for-unregistered@%s" % v, "%s is answered directly only to unregistered callers" % v,
+            run.check(te is not None and f_edge_dominates(te, site), "compat-only-for-unregistered@%s" % v, "%s is answered directly only to unregistered callers" % v,
                       "check_session can answer %s to a registered caller without identifying it" % v, f.where(st.get("l")))
         run.anchor("direct non-neutral answers", n, 3, f.where())
     # a unique registration is delegated to check_candidate
